@@ -4,6 +4,7 @@
 #include <cmath>
 
 extern "C" {
+void c07_read_schedule(int, int);
 int c07_init(void); int c07_new(int); int c07_new_from_ptr(int, const char *, long, int, int);
 int c07_new_from_buff(int, const char *, long, long, int, int); int c07_new_from_fp(int, const char *, long, int, int, const char *);
 int c07_new_from_fd(int, const char *, long, int, int, const char *); int c07_init_plain(int); int c07_done(int); int c07_del(int);
@@ -106,6 +107,13 @@ struct Interp {
         } else if (k == "new_fp" || k == "new_fd") {
             std::string t = expand(op.s(0), op.i(0, 1), op.s(1));
             int kind = (int)(op.i(1) & 1);
+            // harness-owned read(): short reads and EINTR on pipes (the kernel may split a transfer any way it likes)
+            static const int caps[] = {0, 1, 100, 4095, 5000};
+            int cap = (k == "new_fd" && kind == 0) ? caps[((op.i(2) % 5) + 5) % 5] : 0, eintr = (k == "new_fd" && kind == 0) ? (int)(((op.i(3) % 3) + 3) % 3) : 0;
+            if (cap == 1 && t.size() > 6000) cap = 100;
+            c07_read_schedule(cap, eintr);
+            if (cap) ctx.label("fd:short-reads");
+            if (eintr) ctx.label("fd:EINTR");
             r = k == "new_fp" ? LA(c07_new_from_fp(i, t.data(), (long)t.size(), kind, reinit, config().scratch_dir.c_str()))
                               : LA(c07_new_from_fd(i, t.data(), (long)t.size(), kind, reinit, config().scratch_dir.c_str()));
             VT_CHECK(ctx, r >= 0, "harness", "could not create descriptor");
@@ -422,7 +430,7 @@ rc::Gen<Op> gen_stream_ctor(const std::string &prefix) {
         long rep;
         static const long L[] = {0, 1, 100, 4095, 4096, 4097, 8191, 8192, 8193, 12293, 70000};
         if (k < 3) { unit = *gen_unit(); rep = *range(0, 6); } else rep = *rc::gen::elementOf(std::vector<long>(L, L + 11));
-        o.ints = {rep, *range(0, 1)};
+        o.ints = {rep, *range(0, 1), *range(0, 2) == 0 ? *range(1, 4) : 0, *range(0, 3) == 0 ? *range(1, 2) : 0};
         o.strs = {unit, *range(0, 2) == 0 ? *gen_unit() : std::string()};
         return o;
     });
